@@ -21,7 +21,7 @@ LEVEL = "exploration"
 RULE = ("random for_all queries: universal variable of kind P or Q (|U| 1-4), the attribute expression q.p of it, or a restricted entity an(entity(u, restriction)) with the condition written over the variable or over the entity, "
         "1-3 free variables, condition trees of depth 0-3 over the full vocabulary (leaves, negations, conjunctions, "
         "disjunctions) mentioning the universal only / the free variables only / both, optionally and_-combined with a "
-        "condition on the free variables in either order; all free variables selected; caching on and off. "
+        "condition on the free variables in either order; all free variables selected, or (a third of the cases with >= 2 free variables) only part of them; caching on and off. "
         "Non-trivial: |U| >= 2 and the oracle result is neither empty nor all free assignments.")
 LEVEL_TEXT = ("Reference-model monitoring: rows of the real for_all query compared by identity with the universally "
               "quantified statement evaluated in plain Python. The node monitor must show ForAll entered with |U|>=2, "
@@ -32,7 +32,7 @@ ASSUMPTIONS = ["the universal domain is non-empty (as the property states)", "no
 
 
 def plan(tier, seed):
-    n = 300 if tier == "quick" else 3500
+    n = 500 if tier == "quick" else 3500
     return [{"n": n, "sub": i} for i in range(16)]
 
 
@@ -40,7 +40,7 @@ def floors(tier):
     return {"distinct_nontrivial": 200, "re:ForAll(@.*)?\\.enter": 1000, "cls:U>=2": 1000, "cls:cond:compound": 500,
             "cls:cond:or": 200, "cls:cond:and": 200, "cls:cond:not": 100, "cls:mentions:both": 300,
             "cls:mentions:universal_only": 30, "cls:mentions:free_only": 30, "cls:extra:first": 100,
-            "cls:extra:second": 100, "cls:u_expr": 100, "cls:u_restricted_entity": 300, "cls:caching_off": 200, "cls:nfree=2": 200, "cls:nfree=3": 50}
+            "cls:extra:second": 100, "cls:u_expr": 100, "cls:u_restricted_entity": 300, "cls:free_variable_not_selected": 300, "cls:caching_off": 200, "cls:nfree=2": 200, "cls:nfree=3": 50}
 
 
 def gen_case(rng):
@@ -57,6 +57,9 @@ def gen_case(rng):
         extra = _shift(e, 1)
     case = {"world": world, "kinds": kinds, "cond": cond, "extra": extra, "extra_first": rng.random() < 0.5,
             "u_expr": kinds[0] == "Q" and rng.random() < 0.4, "caching": rng.random() < 0.7}
+    if nfree >= 2 and rng.random() < 0.35:
+        # only part of the free variables is selected: the others are existentially projected away
+        case["sel_free"] = sorted(rng.sample(range(1, 1 + nfree), rng.randint(1, nfree - 1)))
     if not case["u_expr"] and rng.random() < 0.3:
         # the universal is a restricted entity an(entity(u, restriction)): the statement ranges over its solutions only
         restr = ["cmp", rng.choice(["<=", ">", "!=", "=="]), ["v", 0, [["a", rng.choice("ab")]]], ["lit", rng.randint(1, 3)]]
@@ -94,7 +97,12 @@ def expected(case, world):
     out = []
     for f in itertools.product(*doms[1:]):
         if all(C.holds(case["cond"], (u,) + f) for u in U) and (case["extra"] is None or C.holds(case["extra"], (None,) + f)):
-            out.append(tuple(m[id(o)] for o in f))
+            if case.get("sel_free"):
+                row = tuple(m[id(f[i - 1])] for i in case["sel_free"])
+                if row not in out:
+                    out.append(row)
+            else:
+                out.append(tuple(m[id(o)] for o in f))
     return out
 
 
@@ -120,10 +128,11 @@ def run(case, world, caching, times=1, perm=None):
                 cond = and_(e, fa) if case["extra_first"] else and_(fa, e)
             else:
                 cond = fa
-            q = an(set_of(xs[1:], cond))
+            sel = [xs[i] for i in case["sel_free"]] if case.get("sel_free") else xs[1:]
+            q = an(set_of(sel, cond))
         out = []
         for _ in range(times):
-            out.append([tuple(H.lab(m, r[x]) for x in xs[1:]) for r in q.evaluate()])
+            out.append([tuple(H.lab(m, r[x]) for x in sel) for r in q.evaluate()])
         return out
     finally:
         enable_caching()
@@ -155,6 +164,8 @@ def check_case(case, ctx):
     ctx.cls("cls:mentions:" + ("both" if 0 in ment and len(ment) > 1 else "universal_only" if ment == {0} else "free_only"))
     if case["extra"] is not None:
         ctx.cls("cls:extra:first" if case["extra_first"] else "cls:extra:second")
+    if case.get("sel_free"):
+        ctx.cls("cls:free_variable_not_selected")
     if case.get("u_expr"):
         ctx.cls("cls:u_expr")
     if case.get("u_restr"):
@@ -163,6 +174,10 @@ def check_case(case, ctx):
     total = 1
     for k in case["kinds"][1:]:
         total *= len(world[k])
+    if case.get("sel_free"):
+        total = 1
+        for i in case["sel_free"]:
+            total *= len(world[case["kinds"][i]])
     if nU >= 2 and 0 < len(exp) < total:
         ctx.nontrivial()
     try:
@@ -170,7 +185,7 @@ def check_case(case, ctx):
     except Exception as e:
         ctx.fail("EXC", f"{type(e).__name__}: {e}")
         return
-    k = H.diff_kind(got, exp, ordered=False, multiset=True)
+    k = H.diff_kind(got, exp, ordered=False, multiset=not case.get("sel_free"))
     if k:
         ctx.fail(k, {"missing": sorted(set(exp) - set(got))[:8], "extra": sorted(set(got) - set(exp))[:8],
                      "n_expected": len(exp), "n_observed": len(got), "universal_domain_size": nU})
@@ -183,5 +198,5 @@ def classify(f, ctx):
     world = D.build_world(case["world"])
     exp = expected(case, world)
     r = KF.attribute(f, lambda caching: run(case, world, caching)[0], exp, mentioned_not_selected=False,
-                     compare=lambda got, e: H.diff_kind(got, e, ordered=False, multiset=True))
+                     compare=lambda got, e: H.diff_kind(got, e, ordered=False, multiset=not case.get("sel_free")))
     return r if r == "K05" else None
